@@ -434,6 +434,11 @@ func (v *Verifier) symValue(prefix string, t types.Type, entry bool) Value {
 		}
 		v.initMem[o] = v.symValue(prefix+"^", u.Elem(), entry)
 		v.symDepth--
+		if v.nullableResults && !entry {
+			// option nullable-results: a pointer inside the result of an opaque call is nil or a fresh object
+			v.assume("pointer-typed component " + prefix + " of an opaque result is nil or points to a fresh object (not aliased with anything else)")
+			return &IteV{C: v.F.Fresh("isnil!"+sanitize(prefix), SBool), A: &PtrV{}, B: &PtrV{Obj: o}}
+		}
 		v.assume("pointer-typed component " + prefix + " is assumed non-nil and not aliased with other arguments")
 		return &PtrV{Obj: o}
 	case *types.Slice:
